@@ -207,6 +207,8 @@ def launch_double(job, k, l, env):
             sent = wait_for(lambda: evw.exists() and any(x.startswith(want) for x in evw.read_text().splitlines()), pw, 60)
             if sent:
                 time.sleep(w["ext"] / 1000.0)
+                sent = process_alive(pw)   # (a process that did not wait for the lock is gone already)
+            if sent:
                 last = [x for x in evw.read_text().splitlines() if x.startswith("L ")][-1].split(" ")
                 ctx = "prop"
                 if last[2].startswith("run:"):
